@@ -1027,6 +1027,10 @@ func init() {
 				sz := sz
 				sh = append(sh, vShard{Name: fmt.Sprintf("meta/large/%d", sz[0]), Run: func(c *vCtx) { vC04Large(c, sz) }})
 			}
+			sh = append(sh, vShard{Name: "meta/obsgap", Run: func(c *vCtx) {
+				in := &vC04Sys{c: c, cfgS: "metadata obsgap", maxDocs: 2, docs: []map[string]interface{}{vC04Docs[0], vC04Docs[1], vC04Docs[9]}}
+				vBFS(c, &vObsGapSys{inner: in}, 6)
+			}})
 			sh = append(sh, vShard{Name: "meta/sweep", Run: func(c *vCtx) { vC04Sweep(c, maxN) }})
 			sh = append(sh, vShard{Name: "meta/lists", Run: vC04Lists})
 			sh = append(sh, vShard{Name: "meta/keys", Run: func(c *vCtx) { vC04Keys(c, maxDocs-1) }})
@@ -1058,6 +1062,12 @@ func init() {
 			}
 			if v.Config == "metadata keys" {
 				vC04Keys(c, 3)
+				_, ok := c.viol[v.Sig()]
+				return ok
+			}
+			if v.Config == "metadata obsgap" {
+				in := &vC04Sys{c: c, cfgS: v.Config, maxDocs: 2, docs: []map[string]interface{}{vC04Docs[0], vC04Docs[1], vC04Docs[9]}}
+				vReplayHist(&vObsGapSys{inner: in}, v.History)
 				_, ok := c.viol[v.Sig()]
 				return ok
 			}
